@@ -216,3 +216,69 @@ func resultFacts(g *ssa.Function) []func(fi *funcInfo, a string, call *ssa.Call)
 	resultFactCache[g] = out
 	return out
 }
+
+// proveWithJoins: prove the goals at instruction `at` of block b; if the dominating facts do not
+// suffice and control reaches b through a join (a block entered by several edges, as after the
+// negation of a disjunctive guard), prove them separately for every edge into the join, with
+// the facts that hold on that edge.
+func (fi *funcInfo) proveWithJoins(goals []Lin, b *ssa.BasicBlock, at ssa.Instruction, depth int) bool {
+	base := fi.factsAt(b, at)
+	if fi.prove(goals, base, 1) {
+		return true
+	}
+	if depth <= 0 {
+		return false
+	}
+	j := b
+	for n := 0; j != nil && len(j.Preds) < 2 && n < 8; n++ {
+		j = j.Idom()
+	}
+	if j == nil || len(j.Preds) < 2 {
+		return false
+	}
+	for _, p := range j.Preds {
+		if j.Dominates(p) {
+			continue // back edge: the facts of the loop body are not facts at the join's first entry
+		}
+		facts := append([]Lin{}, base...)
+		if ifi, ok := p.Instrs[len(p.Instrs)-1].(*ssa.If); ok && p.Succs[0] != p.Succs[1] {
+			facts = append(facts, fi.condFacts(ifi.Cond, p.Succs[0] == j)...)
+		}
+		facts = append(facts, fi.factsAt(p, p.Instrs[len(p.Instrs)-1])...)
+		if fi.prove(goals, facts, 1) {
+			continue
+		}
+		// the predecessor may itself sit below a join
+		if !fi.proveJoinEdge(goals, facts, p, depth-1) {
+			return false
+		}
+	}
+	return true
+}
+
+func (fi *funcInfo) proveJoinEdge(goals []Lin, have []Lin, b *ssa.BasicBlock, depth int) bool {
+	if depth <= 0 {
+		return false
+	}
+	j := b
+	for n := 0; j != nil && len(j.Preds) < 2 && n < 8; n++ {
+		j = j.Idom()
+	}
+	if j == nil || len(j.Preds) < 2 {
+		return false
+	}
+	for _, p := range j.Preds {
+		if j.Dominates(p) {
+			continue
+		}
+		facts := append([]Lin{}, have...)
+		if ifi, ok := p.Instrs[len(p.Instrs)-1].(*ssa.If); ok && p.Succs[0] != p.Succs[1] {
+			facts = append(facts, fi.condFacts(ifi.Cond, p.Succs[0] == j)...)
+		}
+		facts = append(facts, fi.factsAt(p, p.Instrs[len(p.Instrs)-1])...)
+		if !fi.prove(goals, facts, 1) && !fi.proveJoinEdge(goals, facts, p, depth-1) {
+			return false
+		}
+	}
+	return true
+}
